@@ -204,10 +204,11 @@ def skeletons(tier):
         out.append([(None, "org", None), ("L0", "defs3", None), ("L1", "defm", None), (None, r, "L1"), (None, r, "L0")])
         out.append([(None, "secd", None), (None, "org", None), ("L0", "defl", None), (None, "secc", None), (None, "org", None), (None, r, "L0")])
     if tier == "thorough":
-        for f1, f2, f3 in itertools.permutations(FILLERS, 3):
-            if (hash((f1, f2, f3)) & 7) == 0:  # structural sample of filler orders; every numeral stays symbolic
-                out.append([(None, f1, None), ("L0", f2, None), (None, f3, None), (None, "jpf", "L0")])
-    # deterministic order of the structural sample irrespective of PYTHONHASHSEED
+        # filler orders around a far reference: a deterministic stride through the 3-permutations (structure only; numerals stay symbolic)
+        for f1, f2, f3 in list(itertools.permutations(FILLERS, 3))[::3]:
+            out.append([(None, f1, None), ("L0", f2, None), (None, f3, None), (None, "jpf", "L0")])
+        for f1, f2 in itertools.permutations(FILLERS, 2):
+            out.append([(None, "org", None), (None, "call", "L0"), (None, f1, None), (None, f2, None), ("L0", "nop", None)])
     return out
 
 
@@ -216,11 +217,6 @@ def main(tier):
     X.setup()
     rep = common.Report("C10")
     sk = skeletons(tier)
-    if tier == "thorough":
-        # replace the hash-based sample by a deterministic stride
-        base = [s for s in sk if not (len(s) == 4 and s[3][1] == "jpf" and s[0][0] is None and s[1][0] == "L0" and s[0][1] in FILLERS and s[2][1] in FILLERS and s[3][2] == "L0" and s[2][0] is None and s[0][1] != "org" and s[0][1] != "secd")]
-        perms = list(itertools.permutations(FILLERS, 3))[::7]
-        sk = base + [[(None, f1, None), ("L0", f2, None), (None, f3, None), (None, "jpf", "L0")] for f1, f2, f3 in perms]
     items = [(tier, s) for s in sk]
     results = common.pool_map(run_skeleton, items, chunksize=2)
     tot = {k: 0 for k in ("paths", "obligations", "discharged", "unknown", "rejected_paths")}
